@@ -16,8 +16,8 @@ from .env import xgi
 
 CLASSES = ("Hypergraph", "DiHypergraph", "SimplicialComplex")
 
-NODE_KINDS = ("int", "gap", "str", "digits", "latin")
-EID_KINDS = ("auto", "int", "gap", "perm", "str", "str+auto", "digits", "latin")
+NODE_KINDS = ("int", "gap", "str", "digits", "latin", "odd")
+EID_KINDS = ("auto", "int", "gap", "perm", "str", "str+auto", "digits", "latin", "odd")
 
 _STR_NODES = ["a", "b", "c", "d", "e", "n1", "n10", "n2", "x", "yy", "Zq", "v_7"]
 _STR_EIDS = ["e0", "e1", "e2", "f", "g", "h", "e10", "zz", "q", "r", "E_3", "k9"]
@@ -27,6 +27,13 @@ _LATIN_NODES = ["Ã©", "Ã¼", "Ã±", "ZÃ¼rich", "Ã…se", "Ã§x", "Ã–lm", "naÃ¯ve", "Ã
 _LATIN_EIDS = ["Ã¨0", "Ã¶1", "Ã‘2", "kÃ¸", "Ã»e", "Ã„rger", "Ã­7", "Ã¢", "Ã½9", "Ãž", "Ã°x", "e"]
 # labels containing the default comment token; only used where a reader is given another `comments`
 _HASH_NODES = ["#a", "b#", "c#1", "x#y", "#", "##z", "q"]
+
+# string labels a text format could trip over: inner blanks / tabs / no-break space, number look-alikes that are not canonical ints, the
+# delimiters and comment tokens of the text formats, quotes, one-character and empty labels.  No leading/trailing whitespace (the readers
+# strip lines), every character representable in latin-1 / cp1252.  Text cases filter the pool by what their delimiter/comment token allows.
+_ODD_NODES = ["New York", "a b c", "tab\tin", "x\u00a0y", "007", "1e3", "1.0", "+5", "-0", "a,b", "a;b", "a|b", "a::b", "a:b", "it's", '"q"',
+              "100%", "%", "-", ".", "_", "0", "", "#1", "b#", "a//b", "SÃ£o Paulo"]
+_ODD_EIDS = ["e 1", "New Edge", "1.5", "e,2", "e;3", "e|4", "k'", "0x1f", "--", "E\t9", "e::5", "%e", "e#", "01", "Ãœnit 7", "'", "e//"]
 
 # identifier-like, and none of them is a parameter name of add_node / add_edge / add_simplex
 ATTR_NAMES = ("color", "w", "tag", "weight", "label", "size_")
@@ -45,7 +52,11 @@ def ident(x):
 # -------------------------------------------------------------------------------------
 # generation
 # -------------------------------------------------------------------------------------
-def node_pool(rng, kind, k):
+def node_pool(rng, kind, k, ok=None):
+    """ok: predicate a label must satisfy (only the "odd" family is filtered; when nothing is left the plain str family is used)."""
+    if kind == "odd":
+        cands = [x for x in _ODD_NODES if ok is None or ok(x)] or _STR_NODES
+        return rng.sample(cands, min(k, len(cands)))
     if kind == "int":
         lo = rng.choice((0, 0, 1))
         return list(range(lo, lo + k))
@@ -60,8 +71,11 @@ def node_pool(rng, kind, k):
     return [str(i) for i in rng.sample(range(-4, 40), k)]  # digits
 
 
-def eid_plan(rng, kind, m):
-    """List of m explicit IDs (None = automatic)."""
+def eid_plan(rng, kind, m, ok=None):
+    """List of (at most) m explicit IDs (None = automatic)."""
+    if kind == "odd":  # all explicit
+        cands = [x for x in _ODD_EIDS if ok is None or ok(x)] or _STR_EIDS
+        return rng.sample(cands, min(m, len(cands)))
     if kind == "auto":
         return [None] * m
     if kind == "int":  # explicit 0..: includes idx=0 and mixing with automatic IDs
@@ -90,14 +104,16 @@ def rand_attrs(rng, json_only, p=0.45, maxn=2, names=ATTR_NAMES):
     return {rng.choice(names): rng.choice(vals) for _ in range(rng.randint(1, maxn))}
 
 
-def gen_net(rng, cls, json_only=False, empties=True, min_edges=0, max_edges=7, nkind=None, ekind=None, attrs=True, isolates=True):
-    """-> (network, info).  info: nkind, ekind, feature tags, and the construction history (strings)."""
+def gen_net(rng, cls, json_only=False, empties=True, min_edges=0, max_edges=7, nkind=None, ekind=None, attrs=True, isolates=True, label_ok=None):
+    """-> (network, info).  info: nkind, ekind, feature tags, and the construction history (strings).
+    label_ok: predicate for the labels of the "odd" families (what the representation at hand can carry)."""
     nkind = nkind or rng.choice(NODE_KINDS)
     ekind = ekind or rng.choice(EID_KINDS)
-    pool = node_pool(rng, nkind, rng.randint(1, 7))
+    pool = node_pool(rng, nkind, rng.randint(1, 7), label_ok)
     m = rng.randint(min_edges, max_edges)
     m = min(m, len(_STR_EIDS))
-    ids = eid_plan(rng, ekind, m)
+    ids = eid_plan(rng, ekind, m, label_ok)
+    m = len(ids)
     net = getattr(xgi, cls)()
     hist = [f"{cls}()"]
     feats = set()
